@@ -33,6 +33,13 @@ def boundary(w):
     vals = {0, 1, 2, 9, 10, 11, 35, 36, 37, 2 ** (b - 1) - 1, 2 ** (b - 1), 2 ** (b - 1) + 1, 2 ** b - 1, 2 ** b - 2}
     for k in range(1, b):
         vals |= {2 ** k - 1, 2 ** k, 2 ** k + 1}
+    # multiples of 2^32 and 2^16 (zero low words), small multiples of powers of two above the word size
+    if w == 8:
+        for a in list(range(1, 40)) + [100, 255, 256, 1000, 65535, 65536, 2 ** 31 - 1]:
+            vals |= {a << 32, (a << 32) + 1, (a << 32) - 1, a << 48, a << 40}
+    if w >= 4:
+        for a in range(1, 20):
+            vals |= {a << 16, (a << 16) - 1}
     return sorted(v for v in vals if 0 <= v < 2 ** b)
 
 
